@@ -46,6 +46,12 @@ impl LogTarget {
         record(e, "act", (who, x).into_val(e));
         x
     }
+    /// Same signature as `act`.
+    pub fn act2(e: &Env, who: Address, x: u32) -> u32 {
+        who.require_auth();
+        record(e, "act2", (who, x).into_val(e));
+        x
+    }
     /// The call log.
     pub fn calls(e: &Env) -> Vec<(Symbol, Vec<Val>)> {
         e.storage().persistent().get(&TargetKey::Log).unwrap_or(Vec::new(e))
